@@ -32,6 +32,7 @@ thread_local! {
     static AFTER_GC: RefCell<Option<AfterGc>> = const { RefCell::new(None) };
     static SP_HW: Cell<usize> = const { Cell::new(0) };
     static SLICE_END_GC: Cell<bool> = const { Cell::new(false) };
+    static EAGER_GC: Cell<bool> = const { Cell::new(false) };
 }
 
 /// Reset every hook to its inert state.
@@ -43,6 +44,7 @@ pub fn reset() {
     AFTER_GC.with(|c| *c.borrow_mut() = None);
     SP_HW.with(|c| c.set(0));
     SLICE_END_GC.with(|c| c.set(false));
+    EAGER_GC.with(|c| c.set(false));
 }
 
 pub fn set_schedule(schedule: GcSchedule) {
@@ -82,6 +84,16 @@ pub fn set_slice_end_gc(on: bool) {
 
 pub(crate) fn slice_end_gc() -> bool {
     SLICE_END_GC.with(|c| c.get())
+}
+
+/// While on, every call of `Vm::run_gc` collects, whatever the heap utilisation: each
+/// place where the VM polls the collector becomes a real collection point.
+pub fn set_eager_gc(on: bool) {
+    EAGER_GC.with(|c| c.set(on));
+}
+
+pub(crate) fn eager_gc() -> bool {
+    EAGER_GC.with(|c| c.get())
 }
 
 pub(crate) fn force_gc() -> bool {
